@@ -42,9 +42,13 @@ type Clause struct {
 	Tags   []string
 	Line   string // file:line
 	Ord    int
-	KFKey  string   // known-finding carve-out key applying to this clause ("" none)
-	KFWhen ast.Expr // region predicate
-	KFText string
+	KFs    []KFRegion // known-finding carve-out regions applying to this clause
+}
+
+type KFRegion struct {
+	Key  string
+	When ast.Expr
+	Text string
 }
 
 type LoopSpec struct {
@@ -150,11 +154,7 @@ func (cs *ContractSet) parseFile(fname, src string) error {
 		ls = append(ls, ln{t, i + 1})
 	}
 	var cur *Contract
-	var pendingKF struct {
-		key  string
-		when ast.Expr
-		text string
-	}
+	var pendingKF []KFRegion
 	for _, l := range ls {
 		where := fmt.Sprintf("%s:%d", fname, l.no)
 		fail := func(format string, a ...interface{}) error {
@@ -170,7 +170,7 @@ func (cs *ContractSet) parseFile(fname, src string) error {
 			}
 			cur = &Contract{Key: key, Extern: word == "extern", Iface: word == "iface", Loops: map[int]*LoopSpec{}, Line: where}
 			cs.ByKey[key] = cur
-			pendingKF.key = ""
+			pendingKF = nil
 			continue
 		case "pred", "ufunc":
 			p, err := parsePred(rest, word == "ufunc")
@@ -263,7 +263,7 @@ func (cs *ContractSet) parseFile(fname, src string) error {
 			if err != nil {
 				return fail("known_finding region: %v", err)
 			}
-			pendingKF.key, pendingKF.when, pendingKF.text = key, e, r3
+			pendingKF = append(pendingKF, KFRegion{key, e, r3})
 		default:
 			m := reHead.FindStringSubmatch(t)
 			if m == nil {
@@ -279,10 +279,8 @@ func (cs *ContractSet) parseFile(fname, src string) error {
 				c.Ord = len(cur.Requires) + 1
 				cur.Requires = append(cur.Requires, c)
 			case "ensures":
-				if pendingKF.key != "" {
-					c.KFKey, c.KFWhen, c.KFText = pendingKF.key, pendingKF.when, pendingKF.text
-					pendingKF.key = ""
-				}
+				c.KFs = pendingKF
+				pendingKF = nil
 				if onPanic {
 					c.Ord = len(cur.PanicEnsures) + 1
 					cur.PanicEnsures = append(cur.PanicEnsures, c)
